@@ -98,3 +98,7 @@ Theorem kp_static h0 f id key h : InvI (same_static h0) h -> InvI (same_static h
 Proof.
   apply (st_kp (same_static h0)); intros ? ? *; intros (n0 & G & K & Ks & S); exists n0; repeat split; assumption.
 Qed.
+Theorem lb_visible_static h0 f id focus h : InvI (same_static h0) h -> InvI (same_static h0) (fst (lb_visible f id focus h)).
+Proof.
+  apply (st_lb_visible (same_static h0)); intros ? ? *; intros (n0 & G & K & Ks & S); exists n0; repeat split; assumption.
+Qed.
